@@ -195,6 +195,7 @@ type z3Scenario struct {
 	Cancel     bool     `json:"cancel,omitempty"`
 	CancelLate bool     `json:"cancel_late,omitempty"` // the client goes away exactly before some request or body piece (class cancel)
 	Prior      bool     `json:"prior,omitempty"`
+	Lost       bool     `json:"lost,omitempty"` // the same tag is in the store already but the file of its first layer is gone
 	Dup        bool     `json:"dup,omitempty"`         // the manifest names the first layer's digest twice (same bytes under two media types)
 	Second     bool     `json:"second,omitempty"`      // a second concurrent pull of a model sharing the layer
 	SecondLate bool     `json:"second_late,omitempty"` // ... that starts at some network operation of the first pull (class switch) instead of together with it
@@ -218,9 +219,15 @@ func z3Body(sc z3Scenario) func() {
 		w := ztNewWorld(sc.Faults)
 		srv := w.srv
 		var old *ztManifest
-		if sc.Prior {
-			m := w.publish("lib/model:tag", sc.Layers, sc.Config, 1)
-			old = &m
+		if sc.Prior || sc.Lost {
+			variant := byte(1)
+			if sc.Lost {
+				variant = 3 // the very manifest that is served below
+			}
+			m := w.publish("lib/model:tag", sc.Layers, sc.Config, variant)
+			if !sc.Lost {
+				old = &m
+			}
 			mcos.E.Frozen = true
 			srv.NoFaultsLeft = true
 			mcrt.Deterministic(true)
@@ -230,6 +237,13 @@ func z3Body(sc z3Scenario) func() {
 			if err != nil {
 				mcrt.Fail("C03: setup pull failed: %v", err)
 				return
+			}
+			if sc.Lost {
+				// the first layer's file has disappeared from the store since (disk clean-up, a restore without blobs)
+				if err := gos.Remove(w.blobFile(m.Layers[0].Digest)); err != nil {
+					mcrt.Fail("C03: setup: %v", err)
+					return
+				}
 			}
 			mcos.E.Frozen = false
 		}
@@ -358,7 +372,7 @@ func z3Body(sc z3Scenario) func() {
 					mcrt.Fail("C03: success-incomplete: PullModel reported success (attempt %d) but %s", attempt, msg)
 				}
 			} else {
-				if m != nil {
+				if m != nil && !sc.Lost { // (with a layer lost beforehand the name resolved to an incomplete model before the pull)
 					if msg := w.checkLayers(m); msg != "" {
 						mcrt.Fail("C03: failed-pull-resolves-incomplete: PullModel failed (%s) and the name resolves to a manifest of which %s", z3Err(err), msg)
 					}
@@ -392,6 +406,7 @@ func z3Scenarios(thorough bool) []z3Scenario {
 		{Name: "three-parts-pairs", Layers: []int{10}, Faults: []string{"500", "truncate"}, Faulty: 1},
 		{Name: "three-parts-cancel", Layers: []int{10}, Cancel: true, Faulty: 1},
 		{Name: "challenges", Layers: []int{3}, Challenge: adversarial, Faulty: 1},
+		{Name: "repull-lost-layer", Layers: []int{10, 3}, Lost: true, Faults: []string{"500"}, Faulty: 1, Cap: 1},
 		{Name: "replace-tag", Layers: []int{10, 3}, Prior: true, Faults: []string{"500", "truncate", "flip"}, Faulty: 1, Cap: 1},
 		{Name: "shared-layer", Layers: []int{10}, Second: true, Faults: []string{"500", "truncate"}, Faulty: 1, Cap: 1},
 		{Name: "shared-first-of-two", Layers: []int{3, 5}, Second: true, SecondLate: true, Faults: []string{"500", "flip"}, Faulty: 1},
